@@ -35,7 +35,12 @@ let scenario toks =
           if String.length st > 2 && st.[1] = '+' && Char.code st.[0] - 48 = d
           then String.sub st 2 (String.length st - 2) else acc) "" steps in
       for n = 0 to String.length modes do
-        recvs := Recv (n_of_int d, MReaderEventNotification, Some (n_of_int (2000 + 100 * d + n)), true) :: !recvs
+        (* the first message of connection n: a connection event (successful, or for modes 1-4 one
+           that reports a failed attempt, n: an event without ConnectionAttemptEvent), or (o) a report *)
+        let m = if n < String.length modes then modes.[n] else ' ' in
+        let typ = if m = 'o' then MROAccessReport else MReaderEventNotification in
+        let success = not (String.contains "1234no" m) in
+        recvs := Recv (n_of_int d, typ, Some (n_of_int (2000 + 100 * d + n)), success) :: !recvs
       done
     done;
     let nconn = Array.make 10 0 in
@@ -63,7 +68,8 @@ let scenario toks =
             | 'L' | 'r' -> Recv (d, MROAccessReport, None, false)
             | 'e' -> Recv (d, MReaderEventNotification, None, false)
             | 'K' -> KeepAliveAck d
-            | 'C' | 'T' -> Command d
+            | 'C' | 'T' | 'G' -> Command d
+            | 'F' -> KeepAliveAck d                                     (* receive side stalled, keep-alives *)
             | 'U' -> if v mod 2 = 1 then newconn () else Command d   (* moved to its other address: reconnects *)
             | 'X' -> newconn ()                                      (* outage: reconnects *)
             | 'Z' -> removed.(di) <- true; Command d                 (* removed: nothing more from it *)
